@@ -19,7 +19,7 @@ structure C15Inv (s : AState) (σ : C15St) : Prop where
   rx : RxInv s
   term : σ.terminated = s.isDone
   tim : ∀ t, lookup t σ.timers = some .interval → σ.terminated = false →
-    ∀ x, s.findTimer t = some x → x.kind = .interval ∧ x.st ≠ .dead ∧ x.st ≠ .ended
+    ∀ x, s.findTimer t = some x → x.kind = .interval ∧ ¬ x.Dead
 
 theorem lookup_filter_self {α} (t : Nat) (l : List (Nat × α)) :
     lookup t (l.filter (fun p => p.1 != t)) = none := by
@@ -57,7 +57,7 @@ theorem tim_same {s s' : AState} {σ : C15St} (hi : C15Inv s σ) (ht : s'.timers
     (hsub : ∀ t, lookup t tm = some .interval → lookup t σ.timers = some .interval)
     (hterm : term' = false → σ.terminated = false) :
     ∀ t, lookup t tm = some .interval → term' = false →
-      ∀ x, s'.findTimer t = some x → x.kind = .interval ∧ x.st ≠ .dead ∧ x.st ≠ .ended := by
+      ∀ x, s'.findTimer t = some x → x.kind = .interval ∧ ¬ x.Dead := by
   intro t hl ht' x hx
   have : s'.findTimer t = s.findTimer t := by unfold findTimer; rw [ht]
   rw [this] at hx
@@ -67,12 +67,12 @@ theorem tim_same {s s' : AState} {σ : C15St} (hi : C15Inv s σ) (ht : s'.timers
     state is a live one, or the timer is not an `interval` timer -/
 theorem tim_set {s : AState} {σ : C15St} (hi : C15Inv s σ) (s1 : AState) (h1 : s1.timers = s.timers)
     (t0 : Nat) (st0 : TimerSt)
-    (hst : (st0 ≠ .dead ∧ st0 ≠ .ended) ∨ (∀ x0, s.findTimer t0 = some x0 → x0.kind ≠ .interval))
+    (hst : (st0 ≠ .dead ∧ st0 ≠ .deadHolding ∧ st0 ≠ .ended) ∨ (∀ x0, s.findTimer t0 = some x0 → x0.kind ≠ .interval))
     (tm : List (Nat × TimerKind)) (term' : Bool)
     (hsub : ∀ t, lookup t tm = some .interval → lookup t σ.timers = some .interval)
     (hterm : term' = false → σ.terminated = false) :
     ∀ t, lookup t tm = some .interval → term' = false →
-      ∀ x, (s1.setTimer t0 st0).findTimer t = some x → x.kind = .interval ∧ x.st ≠ .dead ∧ x.st ≠ .ended := by
+      ∀ x, (s1.setTimer t0 st0).findTimer t = some x → x.kind = .interval ∧ ¬ x.Dead := by
   intro t hl ht' x hx
   have hf1 : ∀ t, s1.findTimer t = s.findTimer t := by intro t; unfold findTimer; rw [h1]
   by_cases hte : t = t0
@@ -94,9 +94,14 @@ theorem tim_set {s : AState} {σ : C15St} (hi : C15Inv s σ) (s1 : AState) (h1 :
       have := findTimer_setTimer_eq (s := s1) (st := st0) (by rw [hf1]; exact hf)
       rw [this] at hx
       simp at hx; subst hx
-      obtain ⟨hk, _, _⟩ := hi.tim t (hsub t hl) (hterm ht') x0 hf
+      obtain ⟨hk, _⟩ := hi.tim t (hsub t hl) (hterm ht') x0 hf
       rcases hst with hst | hst
-      · exact ⟨hk, hst.1, hst.2⟩
+      · refine ⟨hk, ?_⟩
+        intro hd; unfold Timer.Dead at hd; simp at hd
+        rcases hd with hd | hd | hd
+        · exact hst.1 hd
+        · exact hst.2.1 hd
+        · exact hst.2.2 hd
       · exact absurd hk (hst x0 hf)
   · rw [findTimer_setTimer_ne hte, hf1] at hx
     exact hi.tim t (hsub t hl) (hterm ht') x hx
@@ -147,9 +152,10 @@ theorem c15_step (w : Wiring) (hw : WellWired15 w) (c : MonCtx) {s s' : AState} 
         cases hf : s.findTimer t with
         | none => simp [hf] at hs
         | some x =>
-          obtain ⟨hk, hnd', hne'⟩ := hi.tim t hl hnt x hf
+          obtain ⟨hk, hnd'⟩ := hi.tim t hl hnt x hf
           simp only [hf] at hs
-          cases hst : x.st <;> simp [hst] at hs hnd' hne'
+          unfold Timer.Dead at hnd'
+          cases hst : x.st <;> simp [hst] at hs hnd'
           · simp_all
           · simp_all
     · simp at hh; simp [hh]
@@ -188,7 +194,7 @@ theorem c15_step (w : Wiring) (hw : WellWired15 w) (c : MonCtx) {s s' : AState} 
             rw [List.find?_eq_none]; intro y hy; simpa using hc.2 y hy
           simp [hnone] at hx
           simp [lookup] at hl'
-          subst hx; simp [hl']
+          subst hx; simp [hl', Timer.Dead]
         · simp [lookup, hte] at hl'
           cases hf : s.timers.find? (fun y => y.id == t) with
           | none => simp [hf, hte] at hx
